@@ -23,7 +23,11 @@ Spec == Init /\ [][Next]_vars
 
 Case == [syntax |-> syntax, features |-> fs, deps |-> Deps(fs), kinds |-> Kinds(syntax, fs),
          shape |-> Shape(syntax, fs)]
-Export == (Valid(syntax, fs) /\ added >= ExportMin) => PrintT("CASE " \o ToJson(Case))
+(* the descriptor.proto schema the path grammar uses, exported once per run for the cross-check
+   against descriptorpb's reflection data *)
+SchemaCase == [schema |-> [m \in SchemaMessages |-> FieldTab[m]]]
+Export == /\ (syntax = "proto2" /\ fs = {} /\ added = 0) => PrintT("CASE " \o ToJson(SchemaCase))
+          /\ (Valid(syntax, fs) /\ added >= ExportMin) => PrintT("CASE " \o ToJson(Case))
 
 (* design-level sanity of the path grammar on every enumerated shape (TLC checks it in each state) *)
 NMsgs == 1 + (IF "service" \in fs THEN 2 ELSE 0) + (IF "customopt" \in fs THEN 1 ELSE 0)
